@@ -12,4 +12,5 @@ for id in "$@"; do
   out=$(cd /verif && VERIF_REPO="$wt" VERIF_EVIDENCE_DIR="$wt/.verif_evidence" ./check "$id" --tier "$tier" 2>&1); rc=$?
   echo "== $id rc=$rc $(( $(date +%s) - start ))s"; echo "$out" | grep -E "VIOLATION|HARNESS|KNOWN" | head -5
 done
+git -C /verif checkout -- lean/Csverif/Gen 2>/dev/null  # tables regenerated from the mutated tree
 cd /; git -C /repo worktree remove --force "$wt"
